@@ -49,12 +49,19 @@ class InstanceReport:
             self.inconclusive.append(f"path budget {max_paths} exhausted before all paths were visited")
 
     # ---- obligations
-    def prove(self, ctx, label, negated, witness=None, timeout_ms=None, key=None, real=False, samplers=None):
+    def prove(self, ctx, label, negated, witness=None, timeout_ms=None, key=None, real=False, samplers=None, nlsat_first=False):
         """negated: z3 Bool (or list, OR-ed) whose unsatisfiability under the path condition is the
         obligation.  witness(model) -> replay spec (dict) or None.  Returns 'unsat'|'sat'|'unknown'."""
         if isinstance(negated, (list, tuple)):
             negated = z3.Or(*negated) if len(negated) != 1 else negated[0]
         self.obligations += 1
+        if nlsat_first:
+            t1 = time.time()
+            r2 = nlsat_unsat(ctx.constraints() + [negated], timeout_ms or ctx.timeout_ms)
+            self.solver_ms += (time.time() - t1) * 1000
+            if r2 == "unsat":
+                self.discharged += 1
+                return "unsat"
         n0, t0 = ctx.n_checks, ctx.solver_ms
         if timeout_ms:
             ctx.solver.set("timeout", timeout_ms)
